@@ -521,8 +521,10 @@ fn cmd_check(a: &Args) -> i32 {
             runs,
             jobs: jobs(),
             verif_dir: vd.clone(),
-            // CPU seconds one case may take; the enumerating tiers have cases that need ten
-            hang_secs: a.opt("--hang-secs").and_then(|s| s.parse().ok()).unwrap_or(if tier == Tier::Thorough { 120.0 } else { 30.0 }),
+            // CPU seconds one case may take (generation on a dry twin included): the heaviest cases
+            // (megabyte inputs, enumerated rejections) need five to ten alone and several times that
+            // on a loaded machine
+            hang_secs: a.opt("--hang-secs").and_then(|s| s.parse().ok()).unwrap_or(120.0),
             max_secs: a.opt("--max-secs").and_then(|s| s.parse().ok()),
             per_run_log: false,
             profile: profile.to_string(),
